@@ -223,6 +223,9 @@ type Walker struct {
 	// (so that conditions computed by helper loops, e.g. "does this file need
 	// net/url", are correlated with the emitters' own decisions).
 	InlineAllRuns bool
+	// FollowAnnHelpers: in symbolic runs, also interpret internal/annotations functions that do not read
+	// proto options themselves (helpers composed of base accessors)
+	FollowAnnHelpers bool
 	// FixRuns answers decisions of every new run (invariants of the input space).
 	FixRuns func(dk, constRepr string) (int, bool)
 	// Concrete: scenario mode — maps, errors and nil-slices are modelled as concrete values.
@@ -2076,7 +2079,7 @@ func (r *Run) followInValidation(fn *types.Func) bool {
 	}
 	if rel == "internal/annotations" {
 		res := fn.Type().(*types.Signature).Results()
-		if r.W.Concrete && res.Len() > 0 && !r.W.readsOptionsDirect(fn) {
+		if (r.W.Concrete || r.W.FollowAnnHelpers) && res.Len() > 0 && !r.W.readsOptionsDirect(fn) {
 			return true // scenario mode: every helper that is not a base accessor is interpreted
 		}
 		return res.Len() > 0 && isErrorType(res.At(res.Len()-1).Type())
